@@ -223,6 +223,41 @@ def spec_plaquettes(op, P_in, P_out, emap, vmap, lat_in, lat_out, truthful):
     return bad, new
 
 
+def crossing_free(P, Q, margin=1e-12):
+    """segments P[i]->Q[i] on the torus (unit cell): True / False / None (= within margin of degenerate).
+    Proper crossings only; segments sharing an end point (after translation) are allowed to touch there."""
+    n = len(P)
+    if n < 2:
+        return True
+    degenerate = False
+    for sx in (-1, 0, 1):
+        for sy in (-1, 0, 1):
+            s = np.array([sx, sy], dtype=float)
+            A, B = P[:, None, :], Q[:, None, :]
+            C, D = (P + s)[None, :, :], (Q + s)[None, :, :]
+
+            def orient(a, b, c):
+                return (b[..., 0] - a[..., 0]) * (c[..., 1] - a[..., 1]) - (b[..., 1] - a[..., 1]) * (c[..., 0] - a[..., 0])
+            o1, o2, o3, o4 = orient(A, B, C), orient(A, B, D), orient(C, D, A), orient(C, D, B)
+            proper = (o1 * o2 < 0) & (o3 * o4 < 0)
+            big = (np.abs(o1) > margin) & (np.abs(o2) > margin) & (np.abs(o3) > margin) & (np.abs(o4) > margin)
+            if sx == 0 and sy == 0:
+                proper &= ~np.eye(n, dtype=bool)
+            if np.any(proper & big):
+                return False
+            # collinear overlaps / touching in the interior: treat tiny orientations with overlapping boxes as degenerate
+            near = (~big) & (o1 * o2 <= margin) & (o3 * o4 <= margin)
+            if sx == 0 and sy == 0:
+                near &= ~np.eye(n, dtype=bool)
+            # sharing an end point is fine
+            def same(a, b):
+                return np.all(np.abs(a - b) < 1e-12, axis=-1)
+            share = same(A, C) | same(A, D) | same(B, C) | same(B, D)
+            if np.any(near & ~share):
+                degenerate = True
+    return None if degenerate else True
+
+
 def classify_new_plaquettes(k, new, emap, faces):
     """lead's rule: a NEW output plaquette P is the known finding iff the input face walk (phi-orbit, from
     the lat driver) through P's first dart, with all steps on removed edges deleted, is cyclically equal to
@@ -465,6 +500,7 @@ def evaluate(ctx, cases, label, plaquette_budget=None):
         P_in = "unset"
         faces = "unset"
         generic = "unset"
+        drawing_ok = "unset"
         truthful = flags_truthful(pos, edges, cr)
         has_cross = bool(np.any(cr != 0))
         used = {}
@@ -545,7 +581,17 @@ def evaluate(ctx, cases, label, plaquette_budget=None):
                     if new:
                         if faces == "unset":
                             faces = parse_faces(run_driver(ctx.exe["lat"], ["faces " + ser_lattice_arrays(pos, edges, cr)[0]])[0])
-                        bad += classify_new_plaquettes(k, new, emap, faces)
+                        cls = classify_new_plaquettes(k, new, emap, faces)
+                        if any(key.endswith("new-plaquette-other") for key, _ in cls):
+                            # the clause presupposes a proper embedding (C01's input space: straight-line drawing
+                            # without crossing edges); evaluate that precondition before reporting
+                            if drawing_ok == "unset":
+                                A = pos[edges[:, 0]]
+                                drawing_ok = crossing_free(A, pos[edges[:, 1]] + cr)
+                            if drawing_ok is not True:
+                                res.skip("no-new-plaquette clause not evaluated: input drawing has crossing edges or is degenerate")
+                                cls = [(key, w) for key, w in cls if not key.endswith("new-plaquette-other")]
+                        bad += cls
                         stats["new-plaquettes/" + k] = stats.get("new-plaquettes/" + k, 0) + len(new)
                     stats["plaquette-checked/" + k] = stats.get("plaquette-checked/" + k, 0) + 1
                     if k in ("cut", "trail") and not truthful:
